@@ -149,12 +149,16 @@ class Spelling:
         return {"tl": self.tl, "rm": self.rm}.get(kind, self.other)
 
     def open_tag(self, e):
+        # one element in six quotes its condition attribute with double quotes, one in eight separates its attributes
+        # by two blanks (both chosen by the element's id, see the unwrap-block spelling below)
+        q = '"' if zlib.crc32(b"qt%d" % e.id) % 6 == 0 and '"' not in self.ds + self.de else "'"
+        sep = "  " if zlib.crc32(b"sp%d" % e.id) % 8 == 0 else " "
         if e.kind == "tl":
-            a = "to='%s'" % (e.to or (READY_T if e.ready else PEND_T))
+            a = "to=%s%s%s" % (q, e.to or (READY_T if e.ready else PEND_T), q)
         elif e.kind == "rm":
-            a = "name='%s'" % (e.name if e.name is not None else ("a" if e.ready else "b"))
+            a = "name=%s%s%s" % (q, e.name if e.name is not None else ("a" if e.ready else "b"), q)
         else:
-            a = "q='1'"
+            a = "q=%s1%s" % (q, q)
         parts = [self.tagname(e.kind), a]
         if e.unwrap:
             # the attribute counts by its name: a quarter of the elements spell it with a value (chosen by the
@@ -169,7 +173,7 @@ class Spelling:
             parts.insert(min(e.skip_pos, len(parts)), "skip")
         if e.extra:
             parts.append(e.extra)
-        return self.ds + " ".join(parts) + self.de
+        return self.ds + sep.join(parts) + self.de
 
     def close_tag(self, e):
         return self.ds + "/" + self.tagname(e.kind) + self.de
